@@ -222,11 +222,53 @@ func discardJustified(p *Program, call *ssa.Call, a *verifyAnchors) (bool, strin
 				okArgs = okArgs && found
 			}
 			if okArgs {
+				// The lemma "cannot fail after a successful verification of the same
+				// values" only covers failures that come out of the hashing core. A
+				// callee with a failing return of its own (a freshly created error)
+				// can fail although verification succeeded.
+				if callee := call.Common().StaticCallee(); callee != nil && callee != a.verify && callee != a.core {
+					if own := ownFailure(p, callee, a); own != nil {
+						return false, ""
+					}
+				}
 				return true, "dominated by the success edge of " + p.FuncName(a.verify) + " on the same hashes and proof"
 			}
 		}
 	}
 	return false, ""
+}
+
+// ownFailure returns a failing return of fn whose error is not the (possibly
+// re-bound) error result of a call to the verifier or the hashing core.
+func ownFailure(p *Program, fn *ssa.Function, a *verifyAnchors) *ssa.Return {
+	ei := errorResultIndex(fn.Signature)
+	if ei < 0 || fn.Blocks == nil {
+		return nil
+	}
+	for _, ret := range returnsOf(fn) {
+		ops := retOperands(ret)
+		if ei >= len(ops) || isNilConst(ops[ei]) {
+			continue
+		}
+		fromCore := derivesDeep(ops[ei], func(x ssa.Value) bool {
+			var c *ssa.Call
+			switch y := x.(type) {
+			case *ssa.Call:
+				c = y
+			case *ssa.Extract:
+				c, _ = y.Tuple.(*ssa.Call)
+			}
+			if c == nil {
+				return false
+			}
+			sc := c.Common().StaticCallee()
+			return sc != nil && (sc == a.core || sc == a.verify)
+		}, 0, map[ssa.Value]bool{})
+		if !fromCore {
+			return ret
+		}
+	}
+	return nil
 }
 
 // succeededBefore: `later` is dominated by the nil edge of the error test of `first`.
